@@ -762,6 +762,12 @@ func runC16(x *xctx) *violation {
 	default:
 		n = []int{255, 256, 257, 300, 384, 385, 520}[t.Choose(K, 7)]
 	}
+	if t.Bool(K, 8) {
+		n = dictSize(t, 300, n) // a source count at a threshold of the code (minus one, exact, plus one)
+		if n < 1 {
+			n = 1
+		}
+	}
 	nb := 0
 	if t.Bool(K, 35) {
 		nb = 1 + t.Choose(K, 3)
